@@ -72,6 +72,97 @@ def coq_ast(a):
     return "(Bin %s %s %s)" % (BOPS[a[1]][0], coq_ast(a[2]), coq_ast(a[3]))
 
 
+# ---------------------------------------------------------------- #expr parser model (Model/ExprParse.v)
+# ladder indexes as in Gen/GenLadder.v: binary levels 0..6, prefix level 7, binary "e" 8, atoms 9
+LV = {n: v[1] - 1 for n, v in BOPS.items()}
+PRE_LV = 7
+ALL_PREFIX = ["-", "+", "not", "ceil", "trunc", "floor", "abs", "sqrt", "exp", "ln", "sin", "cos", "tan", "acos", "asin", "atan"]
+
+
+def lvl_g(a):
+    return 9 if a[0] == "num" else PRE_LV if a[0] == "un" else LV[a[1]]
+
+
+def toks_min(a, ctx=0):
+    """minimal parenthesisation for the documented ladder, as a token list"""
+    if a[0] == "num":
+        t = [a[1]]
+    elif a[0] == "un":
+        t = [a[1]] + toks_min(a[2], PRE_LV)
+    else:
+        i = LV[a[1]]
+        t = toks_min(a[2], i) + [a[1]] + toks_min(a[3], i + 1)
+    return ["("] + t + [")"] if lvl_g(a) < ctx else t
+
+
+def coq_tok(t):
+    return "TNum %s" % cN(t) if isinstance(t, int) else "TLp" if t == "(" else "TRp" if t == ")" else 'TOp "%s"' % t
+
+
+def coq_gast(a):
+    if a[0] == "num":
+        return "(GNum %s)" % cN(a[1])
+    if a[0] == "un":
+        return '(GUn "%s" %s)' % (a[1], coq_gast(a[2]))
+    return '(GBin "%s" %s %s)' % (a[1], coq_gast(a[2]), coq_gast(a[3]))
+
+
+SOUP = [0, 1, 2, 3, 7, 10, "(", ")", "(", ")", "-", "+", "-", "+", "*", "/", "div", "mod", "^", "round", "=", "!=", "<>", "<", ">",
+        "<=", ">=", "and", "or", "not", "abs", "ceil", "floor", "trunc", "sqrt", "ln"]
+EXPR_DEFS = ("Open Scope string_scope.\nFrom WTP Require Import Gen.GenLadder.\n"
+             "Definition conv (l : list (level_kind * list string)) : list level :=\n"
+             "  map (fun x => (match fst x with BinaryLeft => LBin | PrefixFns => LPre end, snd x)) l.\n"
+             "Definition L := conv ladder.\n")
+
+
+def check_expr_parser(run, asts, rng, quick):
+    """Model/ExprParse.parse (the ladder machine the theorem is about) against expr_fn: (1) on the token lists of the
+    generated trees -- Coq's own printer must give the same tokens, the model must read the tree back, and the value
+    must be the implementation's; (2) on token soups -- the model and the implementation must agree on error/value."""
+    tok_cases = [toks_min(a) for a in asts]
+    soups = []
+    for _ in range(1500 if quick else 30000):
+        soups.append([rng.choice(SOUP) for _ in range(rng.randint(1, 9))])
+    texts = ["{{#expr: " + " ".join(map(str, t)) + "}}" for t in tok_cases + soups]
+    chunks = [texts[i:i + 250] for i in range(0, len(texts), 250)]
+    res = lib.run_impl("expand_many", [{"texts": c} for c in chunks], shards=lib.NCPU)
+    outs = [o for r in res for o in (r.get("outs") or [["harness", r.get("outcome")]] * 250)]
+    a_cases, a_idx, s_cases, s_idx = [], [], [], []
+    for i, t in enumerate(tok_cases + soups):
+        o = outs[i]
+        run.count(["expr-tokens", texts[i]], len(t) >= 4, "expr-tree-tokens" if i < len(tok_cases) else "expr-token-soup")
+        if o[0] != "ok":
+            run.histogram["expr-raised"] = run.histogram.get("expr-raised", 0) + 1      # C05's business
+            continue
+        iserr = 'class="error"' in o[1] or "Divide by zero" in o[1] or "sqrt of negative" in o[1]
+        if i < len(tok_cases):
+            a_cases.append("(%s, %s, %s, %s)" % (coq_gast(asts[i]), clist(t, coq_tok, "tok"), cstr(o[1]), lib.cbool(iserr)))
+            a_idx.append(i)
+        else:
+            s_cases.append("(%s, %s, %s)" % (clist(t, coq_tok, "tok"), cstr(o[1]), lib.cbool(iserr)))
+            s_idx.append(i)
+    value = ("match to_ast g with Some a => match eval a with Some z => negb iserr && str_eqb (show_Z z) o | None => true end "
+             "| None => true end")
+    bad, cerrs = lib.coq_eval_failing(
+        "c18p", ["Base.Str", "Model.ParserFns", "Model.ExprParse"], "gast * list tok * str * bool", a_cases,
+        "fun '(g, ts, o, iserr) => toks_eqb (pr L g) ts && match ExprParse.parse L 400 L ts with "
+        "Some (g', []) => gast_eqb g g' | _ => false end && " + value, chunk=300, extra_defs=EXPR_DEFS)
+    for e in cerrs:
+        run.correspondence_break("model evaluation failed (expr parser, trees)", None, error=e)
+    for b in bad:
+        run.correspondence_break("Model.ExprParse (printer, ladder parser, value) disagrees with expr_fn on a generated tree",
+                                 {"texts": [texts[a_idx[b]]]}, impl=outs[a_idx[b]])
+    bad, cerrs = lib.coq_eval_failing(
+        "c18s", ["Base.Str", "Model.ParserFns", "Model.ExprParse"], "list tok * str * bool", s_cases,
+        "fun '(ts, o, iserr) => match ExprParse.parse L 400 L ts with None => iserr | Some (g, _) => " + value + " end",
+        chunk=300, extra_defs=EXPR_DEFS)
+    for e in cerrs:
+        run.correspondence_break("model evaluation failed (expr parser, soups)", None, error=e)
+    for b in bad:
+        run.correspondence_break("Model.ExprParse.parse disagrees with expr_fn on a token sequence (accept/reject or value)",
+                                 {"texts": [texts[s_idx[b]]]}, impl=outs[s_idx[b]])
+
+
 # ---------------------------------------------------------------- string functions
 FN_IDS = {"#len": "FLen", "#pos": "FPos", "#rpos": "FRpos", "#sub": "FSub", "#replace": "FReplace",
           "#explode": "FExplode", "padleft": "FPadleft", "padright": "FPadright", "lc": "FLc", "uc": "FUc",
@@ -247,6 +338,8 @@ def run(run):
         run.property_failure("expr:value-differs-from-reference:" + ",".join(opsused),
                              "%r -> %r, reference evaluator (Coq eval) disagrees" % (texts[2 * i], outs[2 * i][1]),
                              {"texts": [texts[2 * i]]})
+
+    check_expr_parser(run, asts, rng, quick)
 
     # ---- (b) string functions
     n_fn = 2500 if quick else 40000
